@@ -39,11 +39,17 @@ pub fn run(ctx: &Ctx) {
     ctx.set_rule("tape-decoded random programs over the documented feature set (balanced profile, ~2% sloppy choices), printed in a random layout; oracle: reference interpreter on stdout + success/failure class. Non-trivial = the run touches >= 4 of the feature classes listed under labels 'feature:*' including at least one loop or call; distinct = distinct source texts");
     ctx.replay_corpus(None);
     let cfg = gen::GenCfg::balanced();
+    let big = gen::GenCfg::big();
     let n = ctx.n(60_000, 1_500_000);
     let via = if ctx.tier == Tier::Quick { Via::Cli } else { Via::Fast };
     ctx.proptest_tapes("programs", n, 700, via, None, |t| {
         let density = if t.chance(1, 2) { 12 } else { 0 };
-        let (case, rr, prog, _) = build_case("C01", "differential", t, &cfg, density, ctx, DiagLevel::None)?;
+        // One program in five is drawn at sizes beyond the small scope
+        // (lists of 17..100, loops of 17..40 iterations, long strings and
+        // names, recursion depth 8..15, non-boundary big integers).
+        let use_big = t.chance(1, 5);
+        if use_big { ctx.label("profile: beyond small scope"); }
+        let (case, rr, prog, _) = build_case("C01", "differential", t, if use_big { &big } else { &cfg }, density, ctx, DiagLevel::None)?;
         label_outcome(ctx, &rr);
         let mut feats = 0;
         for f in FEATURES {
